@@ -517,6 +517,7 @@ type Contract struct {
 }
 
 type Pred struct {
+	Pkg    string
 	Name   string
 	Params []Binder
 	Body   Expr
@@ -751,7 +752,7 @@ func (ss *SpecSet) ParseSpecText(origin, pkgPrefix string, lines []string) error
 			if err != nil {
 				return fmt.Errorf("%s: pred %s: %v", origin, name, err)
 			}
-			ss.Preds[name] = &Pred{Name: name, Params: params, Body: body, Src: rest}
+			ss.Preds[name] = &Pred{Pkg: pkgPrefix, Name: name, Params: params, Body: body, Src: rest}
 			cur, curLoop = nil, nil
 		case "ghost":
 			name, params, res, err := parseSig(rest)
